@@ -243,6 +243,18 @@ class BuiltinMixin:
             self.trusted_used.add("set(dict) has the dict's keys as members (library axiom)")
             self.set_src[r.t] = lx
             return [(st, r)]
+        if lx.kind is None and lx.sort == "V":
+            # statically unknown: case split on "is a dict" (set of keys) versus a sequence
+            out = []
+            sd, sl = self.branch(st, f"(k_dict {lx.t})")
+            if sd is not None:
+                out.extend(self.b_set(sd, [Val(lx.t, kind="dict", fresh=lx.fresh, origin=lx.origin)], kwargs, node))
+            if sl is not None:
+                g = f"(or (k_list {lx.t}) (k_tuple {lx.t}) (k_set {lx.t}))"
+                self.obl("kind", node, sl, g, detail="argument of set() is a list, tuple, set or dict")
+                sl.assume(g)
+                out.extend(self.b_set(sl, [Val(f"(v_list (seqof {lx.t}))", kind="list")], kwargs, node))
+            return out
         if lx.kind not in ("list", "tuple", "set"):
             raise OutOfSubset(f"set() of {lx.kind}", node)
         sq = f"(seqof {asV(lx)})"
@@ -497,7 +509,8 @@ class BuiltinMixin:
                 except Exception:
                     pass
                 return [(st, Val(Ite(f"(dhas {t} {ks})", f"(dval {t} {ks})", asV(d)),
-                                 fresh=d.fresh if d.fresh != FALSE else FALSE))]
+                                 fresh=Ite(f"(dhas {t} {ks})", FALSE, d.fresh if isinstance(d, Val) else FALSE),
+                                 origin=(f"{recv.origin}[{ks}]" if getattr(recv, "origin", None) else None)))]
         if k == "str":
             if name == "startswith":
                 return [(st, mkB(f"(str.prefixof {asS(self.lift(args[0]))} {asS(recv)})"))]
